@@ -150,7 +150,11 @@ def execute(sc, ctx, want=('C02',)):
             for t in m.trace:
                 out.transitions.add('%d/%s/%s/%s' % t)
             if not okv:
+                # the proof file is C02's business; the public gamma and claim files are still judged on their own
                 out.event('triple-rejected (C02 territory)', opt)
+                okg, mg, _m2, _a2 = _p.R.verify(triple[0], triple[1], b'')
+                if mg.phase == 2 and not _m2.startswith(('ill-formed', 'instantiation', 'esubst', 'ssubst')) and len(mg.journal['claims']) == len(claims):
+                    _p.journal_check(mg, axioms, claims, _p.B.SymMap(), out, 'optimize=%s (gamma and claim files only)' % opt, discharge=False)
                 m = None
         if m is not None:
             names = [t[1] for t in m.trace]
